@@ -54,7 +54,7 @@ DEFAULT = st.just(["default"])
 
 @st.composite
 def statement_seq(draw, *, arity: int, mode: str, max_len: int = 12, min_len: int = 0,
-                  pool_max: int = 6, quoted_depth: int = 3):
+                  pool_max: int = 14, quoted_depth: int = 3):
     """Sequence of statements over a small drawn term pool (hits, misses and evictions interleave).
 
     mode: "rdf11"  s in IRI|BNode, p IRI, o IRI|BNode|Literal, g IRI|BNode|default
@@ -63,7 +63,9 @@ def statement_seq(draw, *, arity: int, mode: str, max_len: int = 12, min_len: in
     """
     rdflib_safe = mode == "rdflib"
     lit = literal(rdflib_safe)
-    iris = draw(st.lists(iri, min_size=1, max_size=pool_max))
+    n_iris = draw(st.sampled_from([1, 2, 3, 4, 6, 9, 12, 14]))
+    n_iris = min(n_iris, max(pool_max, 1))
+    iris = draw(st.lists(iri, min_size=n_iris, max_size=n_iris))
     bnodes = draw(st.lists(bnode, min_size=0, max_size=3))
     lits = draw(st.lists(lit, min_size=0, max_size=4))
     quoteds = draw(st.lists(quoted(quoted_depth), min_size=0, max_size=3)) if mode == "gen" else []
@@ -78,7 +80,7 @@ def statement_seq(draw, *, arity: int, mode: str, max_len: int = 12, min_len: in
         o_pool = iris + bnodes + lits
         g_pool = iris[:3] + bnodes + gdefault + gdefault
     pools = [s_pool, p_pool, o_pool, g_pool][:arity]
-    n = draw(st.integers(min_len, max_len))
+    n = max(draw(st.integers(min_len, max_len)), draw(st.integers(min_len, max_len)))
     out = []
     for i in range(n):
         rep = draw(st.integers(0, 15)) if i else 0  # bit j set: repeat previous term in slot j
